@@ -442,7 +442,7 @@ func ruleC01(prog *Program, rep *Report) {
 // ruleBOM: every public entry skips exactly the three BOM bytes and only
 // under the test buf[0]==0xEF && buf[1]==0xBB && buf[2]==0xBF.
 func ruleBOM(prog *Program, rep *Report) {
-	rep.Rules = append(rep.Rules, "A-bom: in every public entry the buffer handed to the dispatch function is either the whole buffer or buf[3:] (skip == 3), and the skipping form is control-dependent on buf[0]==0xEF, buf[1]==0xBB and buf[2]==0xBF")
+	rep.Rules = append(rep.Rules, "A-bom: in every public entry the buffer handed to the dispatch function is either the whole buffer or buf[3:] (skip == 3), and the skipping form is control-dependent on buf[0]==0xEF, buf[1]==0xBB and buf[2]==0xBF and is decided outside the read loop (first buffer only)")
 	want := map[string]bool{"0=239": true, "1=187": true, "2=191": true}
 	for _, spec := range jsonFrontEnds {
 		pk := prog.Pkg(spec.rel)
@@ -475,7 +475,9 @@ func ruleBOM(prog *Program, rep *Report) {
 						ok = false
 					}
 				}
-				if ok {
+				if ok && s.inLoop {
+					rep.Violate(Finding{Rule: "A-bom", Key: key + ":bom-test-in-loop", Pos: prog.Pos(s.pos), Msg: "the BOM skip is decided inside the read loop: the bytes EF BB BF at the start of any later buffer of the stream are dropped, so the reader entry accepts texts the []byte entry rejects"})
+				} else if ok {
 					rep.Discharge("A-bom", key, prog.Pos(s.pos), "skips 3 bytes under the exact BOM test")
 				} else {
 					var as []string
